@@ -572,6 +572,104 @@ pub fn m4(level: u8) -> Vec<Model> {
     out
 }
 
+/// M5: the clause space. Every clause with 2 or 3 predicates (and the all-equality clauses with 4)
+/// from a pool that contains all four predicate kinds on two integer variables, including
+/// several (dis)equalities on the same variable, bounds equal to a domain bound and values that
+/// are holes; alone, together with a companion constraint that fixes both variables in one
+/// propagation round, and (level >= 1 / strided at level 0) pairs of clauses.
+pub fn m5(level: u8) -> Vec<Model> {
+    let layouts: Vec<Vec<VarDecl>> = vec![
+        vec![VarDecl::interval(0, 4), VarDecl::interval(0, 3), VarDecl::interval(0, 1)],
+        vec![VarDecl::from_values(&[0, 1, 3, 4]), VarDecl::interval(0, 2), VarDecl::interval(0, 1)],
+    ];
+    let (x, y, z) = (0usize, 1usize, 2usize);
+    let pool = [
+        Pred::new(x, PredKind::Eq, 1),
+        Pred::new(x, PredKind::Eq, 3),
+        Pred::new(x, PredKind::Ne, 1),
+        Pred::new(x, PredKind::Ne, 3),
+        Pred::new(x, PredKind::Eq, 2),
+        Pred::new(x, PredKind::Ge, 2),
+        Pred::new(x, PredKind::Le, 2),
+        Pred::new(x, PredKind::Ge, 4),
+        Pred::new(x, PredKind::Le, 0),
+        Pred::new(y, PredKind::Eq, 2),
+        Pred::new(y, PredKind::Eq, 0),
+        Pred::new(y, PredKind::Ne, 2),
+        Pred::new(y, PredKind::Ne, 1),
+        Pred::new(y, PredKind::Ge, 1),
+        Pred::new(y, PredKind::Le, 1),
+    ];
+    let n = pool.len();
+    let mut two: Vec<Con> = vec![];
+    let mut clauses: Vec<Con> = vec![];
+    for i in 0..n {
+        for j in i + 1..n {
+            two.push(Con::PredClause(vec![pool[i], pool[j]]));
+            clauses.push(Con::PredClause(vec![pool[i], pool[j]]));
+            for k in j + 1..n {
+                clauses.push(Con::PredClause(vec![pool[i], pool[j], pool[k]]));
+                // the same clause in another order (which predicates are watched first)
+                if (i + j + k) % 3 == 0 {
+                    clauses.push(Con::PredClause(vec![pool[k], pool[i], pool[j]]));
+                }
+            }
+        }
+    }
+    clauses.push(Con::PredClause(vec![pool[0], pool[1], pool[9], pool[10]]));
+    clauses.push(Con::PredClause(vec![pool[0], pool[9], pool[1], pool[10]]));
+    clauses.push(Con::PredClause(vec![pool[0], pool[1], pool[4], pool[9]]));
+    clauses.push(Con::PredClause(vec![pool[2], pool[3], pool[11], pool[12]]));
+    let companions: Vec<Option<Con>> = vec![
+        None,
+        Some(Con::LinEq(vec![View::id(x), View::id(y)], 4)),
+        Some(Con::LinLe(vec![View::id(x), View::id(y)], 3)),
+        Some(Con::BinNe(View::id(x), View::id(y))),
+        Some(Con::LinEq(vec![View::id(x), View::id(y), View::new(z, 2, 0)], 5)),
+        Some(Con::LinEq(vec![View::id(x), View::new(y, -1, 0), View::new(z, -3, 0)], 0)),
+    ];
+    let mut out = vec![];
+    for vars in &layouts {
+        for (ci, comp) in companions.iter().enumerate() {
+            for (k, c) in clauses.iter().enumerate() {
+                if level == 0 && ci >= 2 && (k + ci) % 3 != 0 {
+                    continue;
+                }
+                let mut cons = vec![];
+                // the companion is posted first for even k, last for odd k
+                if let Some(cc) = comp {
+                    if k % 2 == 0 {
+                        cons.push(cc.clone());
+                    }
+                }
+                cons.push(c.clone());
+                if let Some(cc) = comp {
+                    if k % 2 == 1 {
+                        cons.push(cc.clone());
+                    }
+                }
+                out.push(Model::new(vars.clone(), cons));
+            }
+        }
+        let stride = if level >= 1 { 1 } else { 5 };
+        let mut k = 0usize;
+        for i in 0..two.len() {
+            for j in i + 1..two.len() {
+                k += 1;
+                if k % stride != 0 {
+                    continue;
+                }
+                let mut cons = vec![two[i].clone(), two[j].clone()];
+                if k % 4 == 0 {
+                    cons.push(companions[4].clone().unwrap());
+                }
+                out.push(Model::new(vars.clone(), cons));
+            }
+        }
+    }
+    out
+}
+
 /// Is the model non-trivial: neither every assignment is a solution nor none.
 pub fn nontrivial(model: &Model, num_solutions: usize) -> bool {
     num_solutions > 0 && (num_solutions as u64) < model.space_size()
